@@ -57,6 +57,9 @@ CLAIMED = {
  "C16": ("property-based testing: (A) model-based histories on the incremental stream index (library); (B) generated sessions against the adlt remote binary with a reference filtered sequence as oracle",
          "Generated-history exploration: A drives process_stream_new_msgs like the server loop with generated batching/chunking/window changes and checks the index invariant and bounded progress after every call; B runs generated logs, filter sets, windows, window changes, search paging and lookups over websocket (arrival varied through pause/resume and the parser throttle hook) and compares every delivered frame with the reference.",
          "queries issued while parsing is still running: only prefix-correctness; time lookups only on strictly increasing times; delivery waits are bounded (8 s) and a missing delivery is a violation", "4/C16"),
+ "C13": ("property-based testing over schedules: generated channel capacities and producer/consumer pacing scripts; differential against the same pipeline with unbounded channels; termination by progress watchdog",
+         "Generated-schedule exploration: pipelines built from the public stage functions and the blocking-send helper with per-link capacities {0,1,2,7,64}, stalls at generated positions and early consumer drops; output and final lifecycle table are compared with the unbounded reference, and every stage has to terminate.",
+         "interleavings are sampled via capacities/pacing, not enumerated; a race needing one specific preemption point can be missed; blocked = no progress on any link for 15 s", "4/C13"),
 }
 PENDING = {}
 def main():
